@@ -20,9 +20,8 @@ package rag
 //@   property C13, C02
 //@   ghost st []int
 //@   requires targetPos >= 0
-//@   requires validUTF8(text, st)
 //@   ensures range: 0 <= r && r <= len(text)
-//@   ensures boundary: st[r] == 0
+//@   ensures boundary: validUTF8(text, st) ==> st[r] == 0
 //@   ensures bound: (exists k int :: targetPos - 50 < k && k <= targetPos && 0 <= k && k < len(text) && isBreak(text[k])) ==> r <= targetPos + 1
 //@   ensures overshoot: r <= targetPos + 50
 //@   loop 0:
@@ -40,10 +39,9 @@ package rag
 //@   property C13, C02
 //@   ghost st []int
 //@   requires targetPos >= 0
-//@   requires validUTF8(text, st)
 //@   bind findWordBoundaryNear.st = st
 //@   ensures range: 0 <= r && r <= len(text)
-//@   ensures boundary: st[r] == 0
+//@   ensures boundary: validUTF8(text, st) ==> st[r] == 0
 //@   ensures overshoot: r <= targetPos + 100
 //@   loop 0:
 //@     invariant 0 - 1 <= i && i <= targetPos && targetPos < len(text)
@@ -51,3 +49,41 @@ package rag
 //@   loop 1:
 //@     invariant targetPos <= i && i <= len(text) && i <= targetPos + 100
 //@     decreases len(text) - i
+
+//@ func findBestBoundaryNear results (r)
+//@   property C13
+//@   ensures from_input: !isnil(r) ==> exists k int :: 0 <= k && k < len(boundaries) && r == boundaries[k]
+//@   loop 0:
+//@     invariant isnil(best) || (exists k int :: 0 <= k && k < len(boundaries) && best == boundaries[k])
+
+//@ func (*SizeCalculator) FindSplitPointAt results (r)
+//@   property C13
+//@   flags readonly
+//@   ghost st []int
+//@   requires targetSize >= 0 && sc.config.TokensPerChar > 0.0
+//@   bind findSentenceEndNear.st = st
+//@   ensures range: (forall k int :: {boundaries[k]} 0 <= k && k < len(boundaries) ==> 0 <= boundaries[k].Position && boundaries[k].Position <= len(text)) ==> 0 <= r && r <= len(text)
+//@   ensures boundary: validUTF8(text, st) && (forall k int :: {boundaries[k]} 0 <= k && k < len(boundaries) ==> 0 <= boundaries[k].Position && boundaries[k].Position <= len(text) && st[boundaries[k].Position] == 0) ==> st[r] == 0
+
+// Splitting: terminates; every piece is a non-empty substring of the input, pieces are in order and do not overlap.
+// (Stated without semantic boundaries: adjustBoundaryPositions ignores the white space trimmed from the remainder.)
+//@ func (*SizeCalculator) SplitToSize results (res)
+//@   property C13
+//@   flags readonly
+//@   requires sc.config.Max.Value >= 0 && sc.config.TokensPerChar > 0.0
+//@   requires no_semantic_boundaries: len(boundaries) == 0
+//@   ensures substrings: forall k int :: {res[k]} 0 <= k && k < len(res) ==> samebase(res[k], text) && off(text) <= off(res[k]) && off(res[k]) + len(res[k]) <= off(text) + len(text) && len(res[k]) > 0
+//@   ensures ordered: forall k int :: {res[k]} 0 <= k && k + 1 < len(res) ==> off(res[k]) + len(res[k]) <= off(res[k+1])
+//@   loop 0:
+//@     invariant samebase(remaining, text) && off(text) <= off(remaining) && off(remaining) + len(remaining) <= off(text) + len(text) && len(boundaries) == 0
+//@     invariant forall k int :: {chunks[k]} 0 <= k && k < len(chunks) ==> samebase(chunks[k], text) && off(text) <= off(chunks[k]) && off(chunks[k]) + len(chunks[k]) <= off(remaining) && len(chunks[k]) > 0
+//@     invariant forall k int :: {chunks[k]} 0 <= k && k + 1 < len(chunks) ==> off(chunks[k]) + len(chunks[k]) <= off(chunks[k+1])
+//@     decreases len(remaining)
+
+//@ func adjustBoundaryPositions results (adjusted)
+//@   property C13
+//@   ensures no_more: len(adjusted) <= len(boundaries)
+//@   ensures shifted: forall k int :: {adjusted[k]} 0 <= k && k < len(adjusted) ==> adjusted[k].Position > 0
+//@   loop 0:
+//@     invariant len(adjusted) <= $i
+//@     invariant forall k int :: {adjusted[k]} 0 <= k && k < len(adjusted) ==> adjusted[k].Position > 0
